@@ -24,7 +24,11 @@ Exact == Ev.outcome = "ok" /\ Ev.items = view /\ Ev.count = Len(view)
 Allowed(p) == << <<Ev.outcome # "panic", p \o ":LoadFromDisk panicked">>,
                  <<Ev.outcome # "hang", p \o ":LoadFromDisk did not terminate (feeder blocked, no worker left)">>,
                  <<Ev.outcome = "ok" => Exact, p \o ":LoadFromDisk silently returned an item set different from the stored snapshot">>,
-                 <<Ev.outcome \in {"ok", "err", "slow"}, p \o ":unexpected outcome">> >>
+                 <<Ev.outcome \in {"ok", "err", "slow"}, p \o ":unexpected outcome">>,
+                 <<("leak" \in DOMAIN Ev /\ Ev.outcome \in {"ok", "err"}) => Ev.leak = 0,
+                   "C07:blocks allocated by LoadFromDisk (successful or failed) were not returned to the allocator by Close">>,
+                 <<("allocerrs" \in DOMAIN Ev /\ Ev.outcome \in {"ok", "err"}) => Ev.allocerrs = 0,
+                   "C04:LoadFromDisk / Close freed a block twice or freed a pointer that was never allocated">> >>
 
 TInit == l = 1 /\ bad = "" /\ drift = "" /\ view = <<>> /\ phase = "mkdir" /\ created = {} /\ closedf = {} /\ full = {}
 TGen == /\ Step("Gen") /\ view' = Ev.view /\ phase' = "mkdir" /\ created' = {} /\ closedf' = {} /\ full' = {}
